@@ -532,3 +532,9 @@ func shrinkBytes(src []byte, pred func([]byte) bool) []byte {
 	}
 	return cur
 }
+
+// SetCurrent records the case a worker is executing, so that a crash of the process names its inputs (see ../check)
+func (r *Run) SetCurrent(worker int, c any) {
+	p := filepath.Join(r.VerifDir, ".run", fmt.Sprintf("current-%s-%d.json", r.Prop, worker))
+	_ = os.WriteFile(p, []byte(jsonStr(map[string]any{"case": c})), 0o644)
+}
